@@ -15,7 +15,7 @@ import slimta.edge.wsgi as ewsgi  # noqa: E402
 from slimta.edge.smtp import SmtpSession, SmtpValidators  # noqa: E402
 from slimta.envelope import Envelope  # noqa: E402
 from slimta.relay import PermanentRelayError, TransientRelayError  # noqa: E402
-from slimta.relay.smtp.static import StaticSmtpRelay  # noqa: E402
+from slimta.relay.smtp.static import StaticSmtpRelay, StaticLmtpRelay  # noqa: E402
 from slimta.smtp.server import Server  # noqa: E402
 
 
@@ -144,6 +144,27 @@ def conversation(log):
     return out
 
 
+class LhloSession(SmtpSession):
+    """the stock edge session plus the LMTP greeting (a custom command of the library's server): what an LMTP client needs
+    to talk to the library's SMTP edge"""
+
+    def LHLO(self, reply, arg, server):
+        from slimta.smtp.reply import bad_arguments
+        if not server.bannered or not arg:
+            reply.copy(bad_arguments)
+            return
+        name = arg.decode('utf-8')
+        reply.code = '250'
+        reply.enhanced_status_code = False
+        reply.message = server.extensions.build_string('Hello ' + name)
+        server.have_mailfrom = None
+        server.have_rcptto = None
+        server.ehlo_as = name
+        self.extended_smtp = True
+        self.ehlo_as = name
+        self.envelope = None
+
+
 def smtp_hop(rnd, cfg):
     got = []
     edge_rcpt = []
@@ -183,7 +204,7 @@ def smtp_hop(rnd, cfg):
     def connect(addr):
         # every connection the relay opens gets its own edge session
         a, b = gsocket.socketpair()
-        handlers = SmtpSession(('127.0.0.1', 1), V, handoff)
+        handlers = (LhloSession if cfg.get('lmtp') else SmtpSession)(('127.0.0.1', 1), V, handoff)
         server = Server(b, handlers, ('127.0.0.1', 1), auth=[b'PLAIN'] if cfg['auth'] else False, command_timeout=5.0,
                         context=_srv_ctx() if cfg.get('tls') else None)
         for ext in ('PIPELINING', '8BITMIME', 'SMTPUTF8', 'ENHANCEDSTATUSCODES'):
@@ -206,12 +227,14 @@ def smtp_hop(rnd, cfg):
     wires = []
     clients = []
 
-    class Rec(StaticSmtpRelay._default_class):
+    RelayCls = StaticLmtpRelay if cfg.get('lmtp') else StaticSmtpRelay
+
+    class Rec(RelayCls._default_class):
         def _ehlo(self):
-            r = StaticSmtpRelay._default_class._ehlo(self)
+            r = RelayCls._default_class._ehlo(self)
             clients.append(sorted(self.client.extensions.extensions.keys()))
             return r
-    relay = StaticSmtpRelay('127.0.0.1', 25, socket_creator=connect, client_class=Rec, ehlo_as='relay.example',
+    relay = RelayCls('127.0.0.1', 25, socket_creator=connect, client_class=Rec, ehlo_as='relay.example',
                             connect_timeout=5, command_timeout=5, data_timeout=5, idle_timeout=5 if cfg.get('reuse') else None,
                             context=_cli_ctx() if cfg.get('tls') else None)
     outs = []
@@ -228,7 +251,7 @@ def smtp_hop(rnd, cfg):
     except Exception:  # noqa
         pass
     # the conversations of this hop in the vocabulary of the design model (spec/Hop.tla), with the results the relay reported
-    if wires and outs and not cfg.get('tls'):
+    if wires and outs and not cfg.get('tls') and not cfg.get('lmtp'):
         convs = [conversation(w) or [] for w in wires]
         norms = [ev[-1].get('norm') or [] for _, ev in outs]
         nrs = [ev[-1].get('nrcpt', 0) for _, ev in outs]
@@ -256,8 +279,9 @@ def _cli_ctx():
 def _one_message(rnd, cfg, relay, got, edge_rcpt, clients, live, msgno):
     utf8 = cfg['ext'].get('SMTPUTF8', True) and not cfg['helo_fallback']
     sender = '' if rnd.random() < 0.15 else gen_addr(rnd, utf8)
-    rcpts = [gen_addr(rnd, utf8) for _ in range(rnd.randint(1, 5))]
-    if rnd.random() < 0.3 and len(rcpts) >= 2:
+    # (the LMTP client against the SMTP edge: the edge answers the end of the content once, so one recipient per message)
+    rcpts = [gen_addr(rnd, utf8) for _ in range(1 if cfg.get('lmtp') else rnd.randint(1, 5))]
+    if rnd.random() < 0.3 and len(rcpts) >= 2 and not cfg.get('lmtp'):
         rcpts.append(rcpts[0])                                   # the same recipient twice
     if cfg.get('rcpt_reject'):
         k = rnd.randrange(len(rcpts))
@@ -418,11 +442,17 @@ def main():
         cfg['tls'] = rnd.random() < 0.3 and not cfg['helo_fallback']       # STARTTLS offered: the relay upgrades, then EHLO again
         cfg['reuse'] = rnd.random() < 0.35 and cfg['mail_reject'] != 421     # after a 421 the edge closes: nothing to reuse
         cfg['nmsg'] = rnd.randint(2, 3) if cfg['reuse'] else 1
+        # one in five: the LMTP client talks to the edge (LHLO, one recipient per message, kept-alive connections)
+        cfg['lmtp'] = it % 5 == 4
+        if cfg['lmtp']:
+            cfg.update(helo_fallback=False, tls=False, rcpt_reject=False, rcpt_reject_all=False, auth=False)
+            cfg['reuse'] = rnd.random() < 0.7 and cfg['mail_reject'] != 421
+            cfg['nmsg'] = rnd.randint(2, 3) if cfg['reuse'] else 1
         if it < 2:          # directed: a first message whose recipients are all refused, then another one over the same connection
             cfg.update(rcpt_reject=True, rcpt_reject_all=True, reject=0, mail_reject=0, reuse=True, nmsg=2 + it)
         for k, (sent, ev) in enumerate(smtp_hop(rnd, cfg)):
             stats['executions'] += 1
-            cls = 'smtp' + ('-helo' if cfg['helo_fallback'] else '') + ('-reject' if cfg['reject'] else '') + ('-rcptreject' if cfg['rcpt_reject'] else '') + ('-mailreject' if cfg['mail_reject'] else '') + ('-big' if cfg['big'] else '') + ('-reuse%d' % k if cfg['reuse'] else '') + ('-tls' if cfg['tls'] else '')
+            cls = ('lmtp' if cfg['lmtp'] else 'smtp') + ('-helo' if cfg['helo_fallback'] else '') + ('-reject' if cfg['reject'] else '') + ('-rcptreject' if cfg['rcpt_reject'] else '') + ('-mailreject' if cfg['mail_reject'] else '') + ('-big' if cfg['big'] else '') + ('-reuse%d' % k if cfg['reuse'] else '') + ('-tls' if cfg['tls'] else '')
             f.write(json.dumps({'id': shard + n * nshards, 'cls': cls, 'cfg': {'kind': 'smtp', 'reject': cfg['reject']}, 'sent': sent, 'ev': ev},
                                separators=(',', ':')) + '\n')
             n += 1
